@@ -925,6 +925,41 @@ def rule_U2(ctx) -> None:
         ctx.proved("U2", "load:unknown-fields-accumulate", mod.loc(load))
 
 
+def rule_U2b(ctx, rule: str = "U2") -> None:
+    """a record that load keeps as an unknown field (unknown number, or a known number with a wire type that does not fit the
+    declared type) leaves every known field alone: on every path that appends the record's raw bytes to _unknown_fields no
+    field is assigned, selected or appended to"""
+    from .codec import _load_paths
+
+    mod = ctx.repo.mod(M_INIT)
+    load = mod.func("Message.load")
+    n = 0
+    bad = None
+    for t, w in (("int32", 5), ("int32", 2), ("string", 0), ("message", 0), ("fixed32", 0), ("map", 0)):
+        paths = _load_paths(ctx, mod, t, w)
+        for p in paths:
+            kept = [e for e in p.events if (e.kind == "aug" and e.data[0] == A(N("self"), "_unknown_fields")) or
+                    (e.kind == "store" and e.data[0] == A(N("self"), "_unknown_fields") and e.loops)]
+            if not kept or p.outcome == "raise":
+                continue
+            n += 1
+            touched = [e for e in p.events if e.kind == "call" and e.depth == 0 and e.loops and dotted(e.data[1]) in ("setattr", "$current.append", "$current.extend", "$default.append", "object.__setattr__", "super().__setattr__")]
+            touched += [e for e in p.events if e.kind == "store" and e.depth == 0 and e.loops and e.data[0][0] == "sub" and "__dict__" in show(e.data[0][1])]
+            if touched and bad is None:
+                bad = (t, w, touched[0], p)
+    name = "load:record-kept-as-unknown-touches-no-field"
+    if bad:
+        t, w, e, p = bad
+        what = show(e.data) if e.kind == "call" else f"{show(e.data[0])} = {show(e.data[1])}"
+        ctx.refuted(rule, name, what[:80], f"{mod.rel}:{e.line}",
+                    f"a {t} field whose number arrives with wire type {w} is kept as an unknown field, but on that path load also performs {what}: the unconverted record alters a known field "
+                    "(an unselected oneof member is selected at its default and displaces the member that was set)", "oneof {int32 a = 1; string b = 2}: bytes with b set, then field 1 as fixed32")
+    elif n == 0:
+        ctx.inconclusive(rule, name, "no path that keeps a record as an unknown field found", mod.loc(load))
+    else:
+        ctx.proved(rule, name, mod.loc(load), f"{n} paths")
+
+
 def rule_U5(ctx) -> None:
     """the field lookup is redone for every field read: no use of a lookup result left over by an earlier iteration"""
     from .codec import _load_paths
